@@ -233,6 +233,21 @@ def annotate_fn(R, fn_lines, ann, name):
             inserts.append((end, "after", spec["after"]))
     for ins in ann.get("inserts", []):
         i = find_line(body, ins["at"], ins.get("nth", 1), f"{name}:{ins['at']}")
+        # Ghost `let` bindings must stay in scope for the rest of the loop body.  If an edit has wrapped the
+        # anchor statement in a new block (e.g. `if c { visited.insert(node); }`), splice after that block
+        # instead of inside it: the first later line that closes a block at the indentation the anchor had on
+        # the pinned tree.
+        want = ins.get("indent")
+        if want is not None and ins["pos"] == "after":
+            have = len(body[i]) - len(body[i].lstrip())
+            if have > want:
+                j = i + 1
+                while j < len(body) and not (body[j].strip() == "}" and len(body[j]) - len(body[j].lstrip()) == want):
+                    j += 1
+                if j >= len(body):
+                    raise LostAnchor(f"{name}: anchor {ins['at']!r} is nested and its enclosing block could not be found")
+                R.counts["X7.anchor_moved_out_of_block"] = R.counts.get("X7.anchor_moved_out_of_block", 0) + 1
+                i = j
         inserts.append((i, ins["pos"], ins["text"]))
     R.counts[f"X7.ghost_inserts[{name}]"] = len(inserts)
     before, after, after2 = {}, {}, {}
